@@ -155,11 +155,38 @@ func genInj(r *vh.Rng, c *Case, stopPct int) Inj {
 		return Inj{Kind: "stop", Target: r.Intn(len(c.RRs)), DelayUs: r.Intn(400)}
 	case k < 90:
 		return Inj{Kind: "purge", Target: r.Intn(len(c.RRs)), DelayUs: r.Intn(400)}
-	case k < 95:
+	case k < 94:
 		return Inj{Kind: "outside", Target: r.Intn(c.Slots), DelayUs: r.Intn(400)}
+	case k < 97:
+		return Inj{Kind: "cancelparent", Target: r.Intn(len(c.RRs)), DelayUs: r.Intn(400)}
 	default:
 		return Inj{Kind: "flush", Target: r.Intn(len(c.RRs)), DelayUs: r.Intn(400)}
 	}
+}
+
+// firstDep is the slot of the first dependency a program registers (-1: none on its first path).
+func firstDep(p []Op) int {
+	for _, o := range p {
+		switch o.Kind {
+		case "dep":
+			return o.Slot
+		case "cache":
+			if !o.Alt {
+				if s := firstDep(o.Body); s >= 0 {
+					return s
+				}
+			}
+		case "par":
+			for _, b := range o.Branches {
+				if s := firstDep(b); s >= 0 {
+					return s
+				}
+			}
+		case "fail", "retry":
+			return -1
+		}
+	}
+	return -1
 }
 
 // Gen draws one case.  flavour "C04" leans to plain dependencies, Stop and the run/arm windows;
@@ -176,6 +203,25 @@ func Gen(r *vh.Rng, flavour string) Case {
 	}
 	for i := 0; i < nr; i++ {
 		c.RRs = append(c.RRs, RR{Prog: genProg(r, c.Slots, maxDepth, 0, true), Spawn: r.Chance(60), IntervalUs: []int{0, 100, 200, 2000, 20000}[r.Intn(5)]})
+	}
+	late := r.Chance(25)
+	var lateRule Rule
+	if late {
+		// a share of the histories registers a resource late in a run, after a dependency registered earlier in the
+		// same run has been strobed / invalidated: the run is held right after its first read
+		ri := r.Intn(nr)
+		s0 := firstDep(c.RRs[ri].Prog)
+		if s0 < 0 {
+			s0 = 0
+			c.RRs[ri].Prog = append([]Op{{Kind: "dep", Slot: 0}}, c.RRs[ri].Prog...)
+		}
+		if c.Slots < 2 {
+			c.Slots = 2
+		}
+		s1 := (s0 + 1 + r.Intn(c.Slots-1)) % c.Slots
+		c.RRs[ri].Prog = append(c.RRs[ri].Prog, Op{Kind: "dep", Slot: s1})
+		in := Inj{Kind: []string{"strobe", "invalidate"}[r.Intn(2)], Target: s0}
+		lateRule = Rule{Point: "read", Nth: 1 + r.Intn(3), Inject: &in, HoldUs: 800 + r.Intn(1700)}
 	}
 	stopPct := 8
 	if flavour == "C04" {
@@ -202,6 +248,9 @@ func Gen(r *vh.Rng, flavour string) Case {
 		c.DelayUs = 3000 + r.Intn(9000)
 		in := Inj{Kind: "stop", Target: r.Intn(len(c.RRs))}
 		c.Rules = append(c.Rules, Rule{Point: "reactive.run.locked", Nth: 2 + r.Intn(4), Inject: &in, HoldUs: 100 + r.Intn(400)})
+	}
+	if late {
+		c.Rules = append(c.Rules, lateRule)
 	}
 	c.Perturb = []int{0, 10, 30, 60}[r.Intn(4)]
 	c.PSeed = r.U64()
